@@ -436,7 +436,11 @@ func MergeFuncUpdateCgroup(resource ResourceUpdater, mergeCondition MergeConditi
 	klog.V(6).Infof("merge update cgroup %v with merged value[%v], original new[%v], old[%v]",
 		c.Path(), mergedValue, c.value, oldStr)
 	// suppose current value is different
-	return resource, cgroupFileWrite(c.parentDir, c.file, mergedValue)
+	// return the updater carrying the merged value which is actually written, so that the cached value is the file
+	// content and a following update with the original new value is not skipped
+	merged := resource.Clone().(*CgroupResourceUpdater)
+	merged.value = mergedValue
+	return merged, cgroupFileWrite(c.parentDir, c.file, mergedValue)
 }
 
 // MergeConditionIfValueIsLarger returns a merge condition where only do update when the new value is larger.
